@@ -17,16 +17,28 @@ Proved
   - `straddle` + lagging consumer: the same with 2-block messages — a lagging consumer is enough;
   - `aligned` + PROMPT consumer on a plain file: a block whose last byte ends a line is dropped by
     nobody (`drop_line` only drops the blocks of the non-last parts) — every block is retained.
-* `C17_bound_partial` (checked instances, NOT a general proof): for the `straddle` family (each
-  message ends at most one block after it starts, every block boundary is crossed by a line) with
-  a prompt consumer the high-water marks are the same constants (7 blocks, 6 lines, 5 syslines)
-  at 10, 20, 40 and 80 messages; for streamed readers `blocks high = 2` in every family.
+* `C17_bound_partial_general` (general, by an invariant over the stage-3 loop — `S4V.Lemmas.Mem.Inv`,
+  preserved by `findMsg` and by the drop): for EVERY list of messages in which message `j` starts in
+  block `j`, ends in block `j + 1` and has at most `M` lines (`Straddling M`: each message ends one
+  block after it starts, every block boundary is crossed by a line), with a consumer that is not
+  lagging: blocks high ≤ 7, lines high ≤ 5·M + 1, syslines high ≤ 5 on a plain file, and
+  2 / 5·M + 1 / 5 on a streamed reader — for every number of messages.
+  `C17_bound_partial_straddle`: the one-line family `straddle n` gives 7 / 6 / 5 for every `n`; the
+  instance checks (`C17_bound_partial_instances`, 10–80 messages) show these bounds are attained.
+* `C17_blocks_streamed_loop` (general): in the loop model a streamed reader has blocks high ≤ 2 for
+  every input, every consumer lag and either `drop_lines` variant.
+* `drop_lines_short_circuit_grows`: the model's line-dropping step depends on the extracted constant
+  `DROP_LINES_VISITS_ALL`. With the short-circuit variant (`lines.into_iter().any(..)`: stop at the
+  first line whose drop released a block) the 3-line family `cross3 n` (inner line crossing a block
+  boundary) retains at least `n` lines for EVERY `n` (general), 20 / 30 / 50 at 10 / 20 / 40 messages
+  (evaluated), while the code as extracted keeps 16 for every `n` (`cross3_visit_all_bounded`).
 -/
 import S4V.Model.Mem
 import S4V.Lemmas.Stream
+import S4V.Lemmas.Mem
 
 namespace S4V.Props.MemSpec
-open S4V.Model.Mem S4V.Gen.Consts
+open S4V.Model.Mem S4V.Gen.Consts S4V.Gen.Stream
 
 /-! ### the `blocks` map of a streamed reader (general) -/
 
@@ -103,7 +115,7 @@ theorem aligned_streamed_flat :
 
 /-- **C17_bound_partial**, checked instances: messages that end at most one block after they
 start, every block boundary crossed by a line, consumer not lagging — the marks do not move
-between 10 and 80 messages -/
+between 10 and 80 messages (the bounds of `C17_bound_partial_straddle` below are attained) -/
 theorem C17_bound_partial_instances :
     marks (run false prompt (straddle 10)) = (7, 6, 5) ∧ marks (run false prompt (straddle 20)) = (7, 6, 5)
       ∧ marks (run false prompt (straddle 40)) = (7, 6, 5) ∧ marks (run false prompt (straddle 80)) = (7, 6, 5)
@@ -113,7 +125,7 @@ theorem C17_bound_partial_instances :
 /-- general lower bound for the aligned family on a plain file: a block, once read, is never
 removed, so all `⌈n / 2⌉` blocks are retained — stated for the sizes evaluated -/
 theorem aligned_retains_all : ∀ n ∈ [2, 4, 8, 16, 32], (run false prompt (aligned n)).blocks.length = n / 2 := by
-  decide +kernel +kernel
+  decide +kernel
 
 /-- **C17_full_false**: three independent witnesses — (1) 4-block messages with a lagging
 consumer on a plain file: blocks 31 → 61, lines 70 → 140 from 10 to 20 messages; (2) the same on a
@@ -135,6 +147,73 @@ theorem C17_full_false_aligned : ¬ C17_full := by
   intro h
   have h1 := (h false prompt 20 (by decide)).2.2.2
   revert h1
+  decide +kernel
+
+/-! ### the partial bound, for every number of messages -/
+
+open S4V.Lemmas.Mem
+
+/-- the code as extracted visits every line of a dropped message: `run` is the `visitAll = true`
+instance of the model (unfolds `DROP_LINES_VISITS_ALL`; a regenerated `false` breaks this and
+everything below) -/
+theorem run_visits_all : run = runG true := by
+  funext streamed lag msgs
+  simp only [run, DROP_LINES_VISITS_ALL]
+
+/-- **C17_bound_partial_general**: for every list of messages such that message `j` starts in block
+`j`, ends in block `j + 1` and has at most `M` lines (`Straddling M msgs`, decidable), and a consumer
+that is not lagging, the high-water marks of the stage-3 loop are at most 7 blocks, `5 M + 1` lines
+and 5 messages on a plain file, and 2 blocks, `5 M + 1` lines, 5 messages on a streamed reader —
+whatever the number of messages. -/
+theorem C17_bound_partial_general (M : Nat) (msgs : List Msg) (h : Straddling M msgs) :
+    ((run false prompt msgs).bHigh ≤ 7 ∧ (run false prompt msgs).lHigh ≤ 5 * M + 1 ∧ (run false prompt msgs).sHigh ≤ 5)
+    ∧ ((run true prompt msgs).bHigh ≤ 2 ∧ (run true prompt msgs).lHigh ≤ 5 * M + 1 ∧ (run true prompt msgs).sHigh ≤ 5) := by
+  rw [run_visits_all]
+  have h1 := runG_bounded (streamed := false) h
+  have h2 := runG_bounded (streamed := true) h
+  exact ⟨⟨h1.1 rfl, h1.2⟩, ⟨runG_streamed_bHigh true prompt msgs, h2.2⟩⟩
+
+/-- the hypothesis is decidable and satisfiable -/
+example : Straddling 1 (straddle 6) ∧ Straddling 3 (cross3 6) ∧ ¬ Straddling 7 (long7 3) ∧ ¬ Straddling 1 (aligned 4) := by
+  decide
+
+/-- **C17_bound_partial_straddle**: the checked family at EVERY size — 7 blocks / 6 lines / 5 messages
+(plain), 2 / 6 / 5 (streamed) -/
+theorem C17_bound_partial_straddle (n : Nat) :
+    ((run false prompt (straddle n)).bHigh ≤ 7 ∧ (run false prompt (straddle n)).lHigh ≤ 6 ∧ (run false prompt (straddle n)).sHigh ≤ 5)
+    ∧ ((run true prompt (straddle n)).bHigh ≤ 2 ∧ (run true prompt (straddle n)).lHigh ≤ 6 ∧ (run true prompt (straddle n)).sHigh ≤ 5) :=
+  C17_bound_partial_general 1 (straddle n) (straddle_Straddling n)
+
+/-- **C17_blocks_streamed_loop**: in the loop model a streamed reader never has more than 2 blocks
+stored, for every input and every consumer -/
+theorem C17_blocks_streamed_loop (lag : Nat → Nat) (msgs : List Msg) : (run true lag msgs).bHigh ≤ 2 := by
+  rw [run_visits_all]
+  exact runG_streamed_bHigh true lag msgs
+
+/-! ### `drop_lines` must visit every line -/
+
+/-- ordinary 3-line messages whose inner line crosses a block boundary, the code as extracted:
+at most 7 blocks / 16 lines / 5 messages for every number of messages -/
+theorem cross3_visit_all_bounded (n : Nat) :
+    (run false prompt (cross3 n)).bHigh ≤ 7 ∧ (run false prompt (cross3 n)).lHigh ≤ 16 ∧ (run false prompt (cross3 n)).sHigh ≤ 5 :=
+  (C17_bound_partial_general 3 (cross3 n) (cross3_Straddling n)).1
+
+/-- **drop_lines_short_circuit_grows**: had `drop_lines` been `lines.into_iter().any(|l| self.drop_line(l))`
+(`visitAll = false`: the walk stops after the first line whose drop released a block), the same family
+would retain at least one line per message — for every number of messages, plain or streamed, whatever
+the consumer; evaluated: 20 / 30 / 50 lines at 10 / 20 / 40 messages (the extracted code: 16 / 16 / 16). -/
+theorem drop_lines_short_circuit_grows :
+    (∀ (streamed : Bool) (lag : Nat → Nat) (n : Nat), n ≤ (runG false streamed lag (cross3 n)).lHigh)
+    ∧ marks (runG false false prompt (cross3 10)) = (6, 20, 5) ∧ marks (runG false false prompt (cross3 20)) = (6, 30, 5)
+    ∧ marks (runG false false prompt (cross3 40)) = (6, 50, 5) ∧ marks (runG false true prompt (cross3 40)) = (2, 50, 5)
+    ∧ marks (run false prompt (cross3 10)) = (6, 16, 5) ∧ marks (run false prompt (cross3 40)) = (6, 16, 5) := by
+  refine ⟨runG_short_circuit_grows, ?_⟩
+  decide +kernel
+
+/-- the short-circuit variant also keeps blocks: 4-block messages, prompt consumer — 45 blocks / 108 lines
+at 20 messages against 13 / 29 for the extracted code -/
+theorem long7_short_circuit_grows :
+    marks (runG false false prompt (long7 20)) = (45, 108, 4) ∧ marks (run false prompt (long7 20)) = (13, 29, 4) := by
   decide +kernel
 
 end S4V.Props.MemSpec
